@@ -38,6 +38,10 @@ type Case struct {
 	Tracers int `json:"tracers"`
 	// Split > 1: the history is dealt round-robin to that many goroutines
 	Split int `json:"split"`
+	// LeaveAt > 0: an extra tracer detaches itself during its LeaveAt-th TransitionEnd
+	LeaveAt int `json:"leave_at,omitempty"`
+	// BoolFinals: an extra binding whose final handlers of S0/S1 return false
+	BoolFinals bool `json:"bool_finals,omitempty"`
 }
 
 func checkLog(name string, txs []*rec.Tx, evs []rec.Ev, names am.S, final am.Time, quiescent bool) error {
@@ -117,9 +121,50 @@ func checkLog(name string, txs []*rec.Tx, evs []rec.Ev, names am.S, final am.Tim
 	return nil
 }
 
+// boolFinals: final handlers declared with a bool result (struct handlers are called through reflection,
+// the repo itself has one such handler); the result of a final handler means nothing.
+type boolFinals struct{}
+
+func (boolFinals) S0State(*am.Event) bool { return false }
+func (boolFinals) S0End(*am.Event) bool   { return false }
+func (boolFinals) S1State(*am.Event) bool { return false }
+func (boolFinals) S1End(*am.Event) bool   { return false }
+
+// leaver is a tracer that detaches itself (from another goroutine) while the machine is in the middle of
+// delivering TransitionEnd to the bound tracers; the tracers bound before the workload and never
+// detached must not miss anything because of it.
+type leaver struct {
+	*am.TracerNoOp
+	at   int
+	n    atomic.Int32
+	mach atomic.Pointer[am.Machine]
+}
+
+func (l *leaver) TracerId() string { return "leaver" }
+func (l *leaver) TransitionEnd(t *am.Transition) {
+	if int(l.n.Add(1)) != l.at {
+		return
+	}
+	m := l.mach.Load()
+	if m == nil {
+		return
+	}
+	done := make(chan struct{})
+	go func() { _ = m.TracerDetach("leaver"); close(done) }()
+	select {
+	case <-done:
+	case <-time.After(2 * time.Millisecond):
+	}
+}
+
 func runCase(c Case, st *ev.Stats) error {
 	var extra []*rec.Tracer
 	var extraT []am.Tracer
+	var lv *leaver
+	if c.LeaveAt > 0 {
+		lv = &leaver{TracerNoOp: &am.TracerNoOp{}, at: c.LeaveAt}
+		extraT = append(extraT, lv)
+	}
 	for i := 1; i < c.Tracers; i++ {
 		tr := rec.NewTracer(fmt.Sprintf("rec%d", i))
 		extra = append(extra, tr)
@@ -130,7 +175,14 @@ func runCase(c Case, st *ev.Stats) error {
 	if c.Split > 1 {
 		base.History = nil
 	}
-	run, err := rec.Exec(base, rec.ExecOpts{ExtraTracers: extraT})
+	run, err := rec.Exec(base, rec.ExecOpts{ExtraTracers: extraT, Prepare: func(r *rec.Run) {
+		if lv != nil {
+			lv.mach.Store(r.M)
+		}
+		if c.BoolFinals && r.M.Has(am.S{"S0", "S1"}) {
+			_, _ = r.M.HandlersBind(&boolFinals{})
+		}
+	}})
 	if run != nil {
 		defer run.Close()
 	}
@@ -231,6 +283,10 @@ func genCase(t *rapid.T) Case {
 	}
 	c.History = gen.GenHistory(t, sc, gen.HistoryOpts{MinLen: 2, MaxLen: 16, WithException: true})
 	c.Tracers = rapid.IntRange(1, 3).Draw(t, "tracers")
+	if c.Tracers > 1 && rapid.IntRange(0, 3).Draw(t, "leaver") == 0 {
+		c.LeaveAt = rapid.IntRange(1, 6).Draw(t, "leaveAt")
+	}
+	c.BoolFinals = rapid.IntRange(0, 3).Draw(t, "boolFinals") == 0
 	c.Split = 1
 	if rapid.IntRange(0, 3).Draw(t, "split") == 0 {
 		c.Split = rapid.IntRange(2, 4).Draw(t, "splitN")
